@@ -18,13 +18,13 @@ theorem C09_slot_filled (cfg : ECfg) (al : List (Str × Val)) (f : Nat) (nm : To
     (∀ s', eval cfg cl.al f cl.node (fillerEnter cl s) = .ok () s' →
       eval cfg al (f + 1) (.defineSlot nm node) s = .ok () (fillerLeave s s')) ∧
     (∀ ex s', eval cfg cl.al f cl.node (fillerEnter cl s) = .raised ex s' →
-      eval cfg al (f + 1) (.defineSlot nm node) s = .raised ex (fillerLeave s s')) := by
+      eval cfg al (f + 1) (.defineSlot nm node) s = .raised ex (fillerRaise s s')) := by
   constructor
   · intro s' hr; simp [eval, h, hc, hr]
   · intro ex s' hr; simp [eval, h, hc, hr]
 
 theorem C09_filler_scope (cl : Closure) (s s' : RState) :
-    (fillerLeave s s').env.own = s.env.own ∧ (fillerLeave s s').env.frames = s.env.frames ∧
+    (fillerLeave s s').env.own = updateOwn s.env.own s'.env.rcontext ∧ (fillerLeave s s').env.frames = s.env.frames ∧
     (fillerLeave s s').x.token = s.x.token ∧ (fillerEnter cl s).env.own = s.env.own ∧
     (fillerEnter cl s).env.topFrame.domain = cl.domain := by
   simp [fillerLeave, fillerEnter, Env.topFrame]
